@@ -83,7 +83,7 @@ func roundTrip(sys semver.System, cs string, pool []string, onEval func(v, text 
 // largest value Parse accepts) under ">" is stepped to the internal infinity,
 // which then appears as a *lower* bound in the set text ("{[1.∞.∞:∞.∞.∞]}");
 // ParseSetConstraint accepts ∞ only in upper bounds.
-var nugetFloat4 = regexp.MustCompile(`^[0-9]+\.[0-9]+\.[0-9]+\.\*$`)
+var nugetFloat4 = regexp.MustCompile(`^[0-9]+\.[0-9]+\.[0-9]+\.\*+$`)
 
 func knownClass(sys semver.System, f failure, cs string) string {
 	if f.law == "set-text-parses" && strings.Contains(cs, "9223372036854775806") && kf.Open("C11", "InfinityMinusOneBound") {
